@@ -396,7 +396,7 @@ fn expect(c: &Case) -> Expect {
         width: if k == 7 { (c.w / 2) * 2 } else { c.w & 0xFFFF },
         height: match k {
             7 => 25,
-            6 => 0,
+            // TundraDraw: TInfo2 = number of lines (SAUCE rev. 5); the engine wrote 0 before `fix: SAUCE record of a Tundra file …`
             _ => c.h & 0xFFFF,
         },
         ice: flags && c.ice,
@@ -687,9 +687,20 @@ fn splice_case(run: &mut Run, ctx: &mut Ctx, c: &Case) {
         }
     };
     if let Some(loaded) = from_bytes_case(run, ext, &vec, &input) {
-        if let Some(d) = picture_diff(&picture(&alone), &picture(&loaded)) {
-            // one recorded site has a key of its own: a .tnd file that places no cell at all keeps the record's height
-            let key = if ext == "tnd" && alone.get_line_count() == 0 { "picture-tnd-no-cell" } else { "picture" };
+        // Tundra has no size fields: a .tnd file that places no cell at all keeps the record's height (the first cell
+        // overwrites it).  The height is then one of the record's settings: at the loader's default (25 rows) the picture
+        // is the picture of the content alone; elsewhere the record must be honoured (the repaired writer stores the
+        // buffer's height in TInfo2 - it used to store 0, finding `picture-tnd-no-cell`, fixed)
+        let tnd_no_cell = ext == "tnd" && alone.get_line_count() == 0;
+        if tnd_no_cell && c.h != alone.get_height() {
+            run.count("splice:tnd:no-cell:record-height");
+            let want = c.h & 0xFFFF;
+            if loaded.get_height() != want || loaded.get_width() != alone.get_width() || loaded.get_line_count() != 0 {
+                run.oracle_fail("picture-tnd-no-cell", &input, &format!(".tnd without cells + SAUCE of a {}x{} buffer loads as {}x{} ({} rows), expected {}x{}",
+                    c.w, c.h, loaded.get_width(), loaded.get_height(), loaded.get_line_count(), alone.get_width(), want));
+            }
+        } else if let Some(d) = picture_diff(&picture(&alone), &picture(&loaded)) {
+            let key = if tnd_no_cell { "picture-tnd-no-cell" } else { "picture" };
             run.oracle_fail(key, &input, &format!(".{}: picture of content+EOF+SAUCE differs from the picture of the content alone: {}", ext, d));
         }
         if loaded.get_sauce().is_none() {
